@@ -476,6 +476,11 @@ impl LockStep {
                 ),
             ));
         }
+        // a halt does not sample the key flip-flop: presses made before it stay latched
+        if self.presses.iter().any(|p| p.1) && !info.interrupted {
+            self.rf.iff = true;
+            self.rf.iff_unknown = false;
+        }
         self.presses.clear();
         let ss = rstate_of(self.sut.state());
         if ss != self.rf.state {
